@@ -2,7 +2,7 @@ SPECIFICATION Spec
 CONSTANTS
   IPS = {1, 2}
   NODES = {1}
-  KINDS = {"msg", "way", "junk"}
+  KINDS = {"msg", "hs", "way", "junk"}
   CFGS <- CfA
   H = 1
   MAXARR = 4
